@@ -37,6 +37,8 @@ pub mod hooks {
         pub forwarder: Option<super::vtunnel::FwdScript>,
         /// calls the scripted forwarder received
         pub forwarder_calls: Vec<String>,
+        /// what every accepted connection handed to the connection rules: peer address, client random
+        pub rule_inputs: Vec<(Option<std::net::IpAddr>, Option<Vec<u8>>)>,
     }
 
     lazy_static::lazy_static! {
@@ -45,6 +47,10 @@ pub mod hooks {
 
     pub fn reset() {
         *STATE.lock().unwrap() = State::default();
+    }
+
+    pub(crate) fn note_rule_input(ip: Option<std::net::IpAddr>, client_random: Option<&[u8]>) {
+        STATE.lock().unwrap().rule_inputs.push((ip, client_random.map(|x| x.to_vec())));
     }
 
     pub(crate) async fn lookup_host(
